@@ -596,7 +596,7 @@ ssize_t __wrap_send(int fd, const void *buf, size_t len, int) {
   K().syscalls++;
   if (f->kind == FD_DGRAM) {
     if (!f->connected) { errno = EDESTADDRREQ; return -1; }
-    if (f->pending_err) { int e = f->pending_err; f->pending_err = 0; errno = e; return -1; }
+    if (f->pending_err && !K().icmp_recv_only) { int e = f->pending_err; f->pending_err = 0; errno = e; return -1; }
     return dgram_send(f, f->peer, Addr(), buf, len);
   }
   if (f->kind == FD_STREAM) return stream_send(f, buf, len);
